@@ -2,6 +2,7 @@ package main
 
 import (
 	"strings"
+	"sync"
 )
 
 // Engine A rule set for message ingestion: FILTER, ING-PP/P/C/VC/NV, GATES (DESIGN §3).
@@ -52,59 +53,103 @@ func ingestConfigs() []ingestCfg {
 }
 
 func runIngest(a *Analyzer, r *Results) {
-	k := a.Anchors()
-	ig := &ingest{a: a, k: k, r: r, vc7: map[string]*Effect{}}
+	a.Anchors() // resolve anchors (and fail) on the calling goroutine
+	a.P.VTA()
+	type job struct {
+		id  string
+		cfg ingestCfg
+		res *Results
+		vc7 map[string]*Effect
+		an  *Analyzer
+	}
+	var jobs []*job
 	for _, id := range []string{idE1, idE2, idE3, idE4} {
-		fn := a.P.Func(id)
 		for _, c := range ingestConfigs() {
 			if (id == idE3 || id == idE4) && c.name != "" {
 				continue // the message case splits do not concern the election / sync entries
 			}
-			w := a.NewWalker(func(e *Effect) { ig.onEffect(e) })
+			jobs = append(jobs, &job{id: id, cfg: c, res: NewResults(), vc7: map[string]*Effect{}})
+		}
+	}
+	var wg sync.WaitGroup
+	sem := make(chan struct{}, 12)
+	panics := make([]interface{}, len(jobs))
+	for ji, j := range jobs {
+		wg.Add(1)
+		go func(ji int, j *job) {
+			defer wg.Done()
+			sem <- struct{}{}
+			defer func() { <-sem }()
+			defer func() {
+				if rec := recover(); rec != nil {
+					panics[ji] = rec
+				}
+			}()
+			na := NewAnalyzer(a.P)
+			j.an = na
+			ig := &ingest{a: na, k: na.Anchors(), r: j.res, vc7: j.vc7}
+			fn := na.P.Func(j.id)
+			w := na.NewWalker(func(e *Effect) { ig.onEffect(e) })
 			w.AutoSplit = true
-			w.Config = c.name
-			w.Assume = c.assume
-			{
-				// cache container invariant (rules F2.*, F2.key, F3.*, F6.key, F7 decide it): a message read from the
-				// cache at key K was inserted under the FILTER guards with key = its own height
-				w.Inject = func(e *Effect) []*Atom {
-					if e.Kind != "call" || len(e.Args) < 2 || e.Path[len(e.Path)-1].Fn != idE2 {
-						return nil
-					}
-					m := e.Args[len(e.Args)-1]
-					um := unfreeze(m)
-					if um.Op != "elem" || len(um.Args) != 1 || um.Args[0].Op != "lookup" || um.Args[0].Args[0].Key() != Field(This("rawmessagesfilter.RawMessageFilter"), "futureCache").Key() {
-						return nil
-					}
-					rmf := This("rawmessagesfilter.RawMessageFilter")
-					site := "cache invariant (F2/F3/F6)"
-					mk := func(at *Atom) *Atom { at.Site = site; return at }
-					return []*Atom{
-						mk(Eq(ht(hdr(m)), um.Args[0].Args[1])),
-						mk(Ne(mid(snd(m)), Field(rmf, "myMemberId"))),
-						mk(Eq(inst(hdr(m)), Field(rmf, "instanceId"))),
-					}
+			w.Config = j.cfg.name
+			w.Assume = j.cfg.assume
+			// cache container invariant (rules F2.*, F2.key, F3.*, F6.key, F7 decide it): a message read from the
+			// cache at key K was inserted under the FILTER guards with key = its own height
+			w.Inject = func(e *Effect) []*Atom {
+				if e.Kind != "call" || len(e.Args) < 2 || e.Path[len(e.Path)-1].Fn != idE2 {
+					return nil
+				}
+				m := e.Args[len(e.Args)-1]
+				um := unfreeze(m)
+				if um.Op != "elem" || len(um.Args) != 1 || um.Args[0].Op != "lookup" || um.Args[0].Args[0].Key() != Field(This("rawmessagesfilter.RawMessageFilter"), "futureCache").Key() {
+					return nil
+				}
+				rmf := This("rawmessagesfilter.RawMessageFilter")
+				site := "cache invariant (F2/F3/F6)"
+				mk := func(at *Atom) *Atom { at.Site = site; return at }
+				return []*Atom{
+					mk(Eq(ht(hdr(m)), um.Args[0].Args[1])),
+					mk(Ne(mid(snd(m)), Field(rmf, "myMemberId"))),
+					mk(Eq(inst(hdr(m)), Field(rmf, "instanceId"))),
 				}
 			}
 			w.Run(fn, nil, nil)
 			for _, u := range w.Undecided {
-				r.Undecided = append(r.Undecided, id+": "+u)
+				j.res.Undecided = append(j.res.Undecided, j.id+": "+u)
 			}
-			r.Stats["ingest.paths"] += w.Paths
-			if len(w.Visited) > r.Stats["ingest.functions"] {
-				r.Stats["ingest.functions"] = len(w.Visited)
-			}
+			j.res.Stats["ingest.paths"] = w.Paths
+			j.res.Stats["ingest.functions"] = len(w.Visited)
+			j.res.Stats["ingest.effects"] = ig.effects
+		}(ji, j)
+	}
+	wg.Wait()
+	for _, p := range panics {
+		if p != nil {
+			panic(p)
 		}
-		if id == idE3 || id == idE4 {
-			continue
+	}
+	vc7 := map[string]*Effect{}
+	for _, j := range jobs {
+		r.Obls = append(r.Obls, j.res.Obls...)
+		r.Undecided = append(r.Undecided, j.res.Undecided...)
+		r.Stats["ingest.paths"] += j.res.Stats["ingest.paths"]
+		r.Stats["ingest.effects"] += j.res.Stats["ingest.effects"]
+		if j.res.Stats["ingest.functions"] > r.Stats["ingest.functions"] {
+			r.Stats["ingest.functions"] = j.res.Stats["ingest.functions"]
 		}
+		for k, v := range j.vc7 {
+			vc7[k] = v
+		}
+	}
+	for _, id := range []string{idE1, idE2} {
+		fn := a.P.Func(id)
 		// VC7: under each xor-assumption the vote store must be unreachable
 		short := id[strings.LastIndex(id, ".")+1:]
 		for _, c := range ingestConfigs() {
 			if !strings.HasPrefix(c.name, "vc7-") {
 				continue
 			}
-			e := ig.vc7[id+"|"+c.name]
+			e := vc7[id+"|"+c.name]
 			o := &Obl{Rule: "VC7", Key: "VC7|" + short + "|interfaces.StoreViewChange|net", Props: props("C09", "C11", "C05"), Engine: "A",
 				Text: "a vote is stored only if it carries a block exactly when it carries a non-empty prepared proof (case split " + c.name + ": the store must be unreachable)", Entry: id}
 			if e == nil {
@@ -113,14 +158,13 @@ func runIngest(a *Analyzer, r *Results) {
 				o.Guards = []string{"case split " + c.name + " prunes every path to the store"}
 			} else {
 				o.Status = "violated"
-				o.Site = e.Pos(a)
+				o.Site = a.P.InstrPos(e.Instr)
 				o.Path = e.PathString()
 				o.Missing = "StoreViewChange is reachable under the assumption " + c.name
 			}
 			r.Add(o)
 		}
 	}
-	r.Stats["ingest.effects"] = ig.effects
 }
 
 var (
